@@ -110,37 +110,37 @@ func c12r6(p *model.Prog, r *report.Result) {
 // c19r67: parameter-set caches are replaced, not appended to; 16-bit length fields are written
 // from the value they describe.
 func c19r67(p *model.Prog, r *report.Result) {
-	r.Rule("C19.R6", "AvPacket2RtmpRemuxer.setSps/setPps/setVps store append(<empty>, b...): the cached parameter set is replaced by the new one, never concatenated with the previous one")
-	for _, name := range []string{"setSps", "setPps", "setVps"} {
-		fn := p.Method("pkg/remux", "AvPacket2RtmpRemuxer", name)
-		ok := false
-		n := 0
-		model.EachInstr(fn, func(in ssa.Instruction) {
-			st, isSt := in.(*ssa.Store)
-			if !isSt {
-				return
+	r.Rule("C19.R6", "every store to AvPacket2RtmpRemuxer.sps / pps / vps in pkg/remux is nil or append(<empty>, b...): the cached parameter set is replaced by a copy of the new one, never concatenated with the previous one and never the caller's slice itself")
+	for _, name := range []string{"sps", "pps", "vps"} {
+		fld := p.Field("pkg/remux", "AvPacket2RtmpRemuxer", name)
+		nCopy := 0
+		for _, fn := range lalFuncsIn(p, "pkg/remux") {
+			for _, st := range model.FieldStores(fn, fld) {
+				if model.IsNilConst(st.Val) || isEmptyValue(st.Val) {
+					continue // emptied
+				}
+				ok := false
+				if call, isCall := st.Val.(*ssa.Call); isCall {
+					if bi, isB := call.Call.Value.(*ssa.Builtin); isB && bi.Name() == "append" {
+						first := call.Call.Args[0]
+						// the first operand is empty: nil, x[0:0], or a load of the field right after it was stored an empty value
+						if isEmptyValue(first) {
+							ok = true
+						}
+						if w := fwdLoadRules(first); w != nil && isEmptyValue(w) {
+							ok = true
+						}
+					}
+				}
+				if ok {
+					nCopy++
+				}
+				r.Check(ok, "C19.R6", fkey(fn, "cache", "replaced:"+name), p.InstrPos(st), "cache replaced by a copy", "the parameter-set cache is assigned something else than a fresh copy of the new set (appended to what it still holds: after a lost PPS or a reconfiguration the sequence header carries old||new as one set; or the caller's slice itself: it changes when the caller re-uses its buffer)")
 			}
-			if _, isF := st.Addr.(*ssa.FieldAddr); !isF {
-				return
-			}
-			call, isCall := st.Val.(*ssa.Call)
-			if !isCall {
-				return
-			}
-			if bi, isB := call.Call.Value.(*ssa.Builtin); !isB || bi.Name() != "append" {
-				return
-			}
-			n++
-			first := call.Call.Args[0]
-			// the first operand is empty: nil, x[0:0], or a load of the field right after it was stored an empty value
-			if isEmptyValue(first) {
-				ok = true
-			}
-			if w := fwdLoadRules(first); w != nil && isEmptyValue(w) {
-				ok = true
-			}
-		})
-		r.Check(ok && n == 1, "C19.R6", fkey(fn, "cache", "replaced"), p.Pos(fn.Pos()), "cache replaced", "the new parameter set is appended to whatever the cache still holds: after a lost PPS (or a reconfiguration) the sequence header carries old||new as one SPS and decoders see wrong dimensions")
+		}
+		if nCopy < 1 {
+			r.Bad("C19.R6", "floor|"+name, "", "no replacing store to the "+name+" cache found")
+		}
 	}
 
 	r.Rule("C19.R7", "in avc.BuildSeqHeaderFromSpsPps and hevc.BuildSeqHeaderFromVpsSpsPps the two bytes of every 16-bit parameter-set length come from the length of the same slice, and that slice is the one copied right behind them")
